@@ -93,3 +93,9 @@ def numeric_arrays():
 def unweighted(scns):
     return [S.variant(s, ".u", weighted=False, weights=[1], max_resp=s["max_resp"] + 1)
             for s in scns]
+
+
+def fractional(scns, wden=2, weights=(1, 2, 3)):
+    """the same scenarios with fractional respondent weights: key weights w carry w / wden
+    (halves or quarters, which binary floating point represents exactly)"""
+    return [S.variant(s, ".frac", wden=wden, weights=list(weights), weighted=True) for s in scns]
